@@ -221,15 +221,15 @@ def main():
 
     # 2. build + audit
     ok_core, out_core = lake_build(["UVerif", "uvdriver"])
-    ok_proofs, out_proofs = lake_build(["UVerifProofs"])
     proof_mods = cfg.get("proof_modules", [f"UVerifProofs.Props.{prop}"])
+    ok_proofs, out_proofs = lake_build(["UVerifProofs"] + ["+" + m for m in proof_mods])
     broken_mods = [m for m in failed_modules(out_proofs)] if not ok_proofs else []
     # a failing module matters for this property if it is (or is imported by) one of its proof modules:
     # after a failed build, ask lake for exactly this property's modules
     proofs_ok_for_prop = True
     broken_detail = ""
     if not ok_proofs:
-        okp, outp = lake_build(proof_mods)
+        okp, outp = lake_build(["+" + m for m in proof_mods])
         proofs_ok_for_prop = okp
         if not okp:
             broken_detail = outp[-3000:]
